@@ -149,11 +149,24 @@ def main(argv=None):
     qt = 30000 if a.tier == "quick" else 300000
     jobs = []
     meta = {}
+    # the thorough grids of the class-level harnesses are products of many parameters; a run is capped at
+    # SYMX_THOROUGH_CAP worker jobs by a deterministic stride over the case list (kept / total is written to the evidence;
+    # set SYMX_THOROUGH_CAP=0 for the full grid)
+    cap = int(os.environ.get("SYMX_THOROUGH_CAP", "700")) if a.tier == "thorough" else 0
+    all_cases = []
     for modname in spec["modules"]:
         mod = importlib.import_module(modname)
-        cs = mod.cases(a.tier)
-        for i, c in enumerate(cs):
+        for i, c in enumerate(mod.cases(a.tier)):
             if a.only and a.only not in c.name:
+                continue
+            all_cases.append((modname, i, c))
+    n_jobs_full = sum(c.shards for _, _, c in all_cases)
+    stride = 1
+    if cap and n_jobs_full > cap:
+        stride = -(-n_jobs_full // cap)
+    subsample = {"cases_total": len(all_cases), "jobs_total": n_jobs_full, "stride": stride}
+    for pos, (modname, i, c) in enumerate(all_cases):
+            if stride > 1 and pos % stride != 0:
                 continue
             if c.shards > 1:
                 for k in range(c.shards):
@@ -339,6 +352,7 @@ def main(argv=None):
             "status": status,
             "known_findings_hit": sorted(known_hits),
             "uncovered": spec.get("uncovered", []),
+            "case_grid": dict(subsample, cases_run=len(meta)),
             "solver": "z3 %s (python API, tooling venv)" % _z3v(),
         },
         "assumptions": sorted(assumptions) + spec.get("assumptions", []),
